@@ -1,7 +1,7 @@
 (* Obligation C10/calc_spec.  Statement as printed by Coq from Inferno.C10.AccProofs; proof by reference.
    This file contains nothing else, so the statement cannot be weakened quietly. *)
 From Coq Require Import List ZArith Bool Arith Reals Lra Lia Permutation.
-From Inferno Require Import Base.Num Base.NumR Gen.Bounding C10.Updater C10.KernelProofs C10.AccProofs C10.OrderProofs C10.WorldProofs C10.UpdateProofs C10.InterleaveProofs.
+From Inferno Require Import Base.Num Base.NumR Gen.Bounding C10.Updater C10.KernelAlgebra C10.AccProofs.
 Import ListNotations.
 Open Scope R_scope.
 Theorem calc_spec : forall (red : list (T RN) -> T RN) (p0 : tensorR) (t : list tensorR),
